@@ -1605,7 +1605,7 @@ def _fix_copy(self: fst.FST, options: Mapping[str, Any]) -> None:
         if (pars_arglike := options.get('pars_arglike', ...)) is ...:
             pars_arglike = fst.FST.get_option('pars_arglike')
 
-        if pars_arglike or (pars_arglike is None and pars is True):
+        if pars_arglike or (pars_arglike is None and pars):  # None defers to `pars`, True and 'auto' parenthesize
             need_pars = False
 
             for e in ast.elts:
